@@ -7,6 +7,9 @@
   OBLIGATION c14_syntax_error_pos
   OBLIGATION c14_step_violated_by_crBug
   OBLIGATION c14_pest_violated_by_crBug
+  OBLIGATION c14_bytes
+  OBLIGATION c14_step_bytes
+  OBLIGATION c14_bytes_nonascii_witness
 -/
 import AGV.Lemmas.Pos
 
@@ -52,6 +55,34 @@ theorem c14_pest_violated_by_crBug :
     ∃ text off, pestLineCol true text off ≠ lineCol text off := by
   refine ⟨['{', '\r', ' ', '%'], 3, ?_⟩
   simp [pestLineCol, pestAux, lineCol, lineColAux]
+
+/-- Byte layer.  `PositionCalculator::step` is driven by BYTE offsets (pest spans) and slices
+    the remaining input by bytes; the statements above index the text by scalar values.  For
+    every text and every increasing sequence of character indices, running the byte-driven
+    calculator on the corresponding byte offsets gives the answers of the character-driven one
+    (both variants of the per-character step).  Byte offsets inside a character are outside the
+    statement: pest spans start on character boundaries, and the real slice would panic there. -/
+theorem c14_bytes (b : Bool) (text : List Char) (ks : List Nat) (h : List.Pairwise (· ≤ ·) ks) :
+    stepAllB b text (ks.map (byteOff text)) = stepAll b text ks := by
+  have := stepAllAuxB_eq b text ks 0 St.init (by
+    rw [List.pairwise_cons]; exact ⟨fun _ _ => Nat.zero_le _, h⟩)
+  simpa [stepAllB, stepAll, byteOff, byteLen] using this
+
+/-- Full statement at the byte level: stepped along the byte offsets of any increasing sequence
+    of token starts, the calculator returns the specification's line and column of each token
+    (columns count scalar values, not bytes). -/
+theorem c14_step_bytes (text : List Char) (ks : List Nat) (h : List.Pairwise (· ≤ ·) ks) :
+    stepAllB false text (ks.map (byteOff text)) = ks.map (lineCol text) := by
+  rw [c14_bytes false text ks h, c14_step text ks h]
+
+/-- Non-vacuity on a text where bytes and scalar values differ: `é`, CR, `€`, `a` — the token `a`
+    starts at byte 6 and character 3, line 2 column 2. -/
+theorem c14_bytes_nonascii_witness :
+    byteOff ['é', '\r', '€', 'a'] 3 = 6 ∧
+    stepAllB false ['é', '\r', '€', 'a'] [6] = [(2, 2)] ∧
+    lineCol ['é', '\r', '€', 'a'] 3 = (2, 2) := by
+  refine ⟨by decide, by decide, ?_⟩
+  simp [lineCol, lineColAux]
 
 /-- the hypotheses of `c14_step` are satisfiable by a non-trivial input -/
 example : List.Pairwise (· ≤ ·) [0, 3, 3, 5] := by decide
